@@ -33,6 +33,8 @@ func runC09(r *engine.Run) {
 	r.Rule("AGREE-update", "an update in place of an existing value node stores both hashed fields (value bytes and weight) from the payload; the shortcut that skips the update (zero change, same node) is taken only where the bytes tested equal AND the weights tested equal")
 	r.Rule("DOM-memo", "each CalcHash returns the cached hash without recomputing only where the dirty flag tested false, and stores the recomputed hash (the RawHash result) into the hash field")
 	r.Rule("AGREE-endian", "every fixed-width read and write of the weighted trie (hash pre-images, serialised weights, decoders) uses one byte order")
+	r.Rule("DOM-shortkey", "every shared-prefix node built by insert/delete gets a key provably non-empty at the site (the walk's key under len(key) == 0 false, X[:k] under k == 0 false, X[k:] under len(X) == k false, a made slice of length >= 1, a literal with elements)")
+	r.Rule("FRESH-resolved", "resolveHashNode returns exactly the node its own DeserializeNode call decoded and keeps no other reference to it: loaded nodes are mutated in place by the walks, so they are never shared through a cache")
 	r.NotDec = append(r.NotDec, "the numeric equalities themselves (total weight = sum of live weights, block ownership, root = independent computation)")
 	exhW(r, "EXH-W", []string{"insert", "delete", "getBlockProof", "markToCollect"})
 	depWeight(r)
@@ -51,6 +53,8 @@ func runC09(r *engine.Run) {
 	agreeUpdate(r, "AGREE-update")
 	domMemo(r, "DOM-memo")
 	agreeEndian(r, "AGREE-endian")
+	domShortKey(r, "DOM-shortkey")
+	freshResolved(r, "FRESH-resolved")
 	domNoChange(r, "AGREE-update")
 	if n := domSentinel(r, "DOM-sentinel", wf); n < 1 {
 		r.Anchor("DOM-sentinel", fmt.Errorf("unresolved anchor: no single-slot scan with sentinels found in the weighted trie (delete's reduction step is expected to be one)"))
@@ -849,7 +853,7 @@ func domNoChange(r *engine.Run, rule string) {
 		if full {
 			for _, ft := range facts {
 				if ft.Kind == "bool" && ft.Truth {
-					if c, ok := ft.A.(*ssa.Call); ok && extCalleeIs(c, "bytes", "", "Equal") {
+					if c, ok := ft.A.(*ssa.Call); ok && isBytesEq(c) {
 						bytesEq = true
 					}
 				}
